@@ -219,7 +219,11 @@ class Harness(cm.BaseB):
                     rz3.randomize_wells(g[R - 1][::-1])
                     rz3.randomize_wells([g[r][C - 1] for r in range(R - 1, -1, -1)])
                     rz4.derandomize_wells([g[R - 1][C - 1], g[0][0]])
-                    for nm, other in (("asked for the last well / row / column first", rz3), ("asked to de-randomize first", rz4)):
+                    import copy
+                    import pickle
+
+                    clones = [(f"obtained from it by {nm2}", f(rz)) for nm2, f in (("copy.copy", copy.copy), ("copy.deepcopy", copy.deepcopy), ("a pickle round trip", lambda o: pickle.loads(pickle.dumps(o))))]
+                    for nm, other in [("asked for the last well / row / column first", rz3), ("asked to de-randomize first", rz4)] + clones:
                         if [str(x) for x in np.asarray(other.randomize_wells(np.array(val))).flatten()] != fw:
                             V.append(("C15/seed-determinism", f"{R}x{C} seed {seed} {mode}: a randomizer with the same arguments that was {nm} maps the plate differently"))
                 except Exception as e:
